@@ -233,7 +233,7 @@ theorem setItem_create_idx_in_list (cls : Cls) (kvs : List (Str × Val)) (q0 : P
     rw [getAt_snoc, hq0]; simp [child, hi]
   have hlen := mergedToks_length_le (q0 ++ [Seg.idx i])
   have hqm : startsWith (slash ++ renderPos (q0 ++ [Seg.idx i]) ++ (CStep.idx e :: steps).flatMap renderCStep) ['?'] = false := by
-    simp [slash, startsWith, List.append_assoc]
+    simp [slash, startsWith]
   have hpc : hasPathChar (slash ++ renderPos (q0 ++ [Seg.idx i]) ++ (CStep.idx e :: steps).flatMap renderCStep) = true := by
     simp [hasPathChar, slash]
   have hh := hg.headName_of_idx
@@ -273,7 +273,7 @@ theorem setItem_new_in_plain_list_raises (cls : Cls) (kvs : List (Str × Val)) (
     rw [getAt_snoc, hq0]; simp [child, hi]
   have hlen := mergedToks_length_le (q0 ++ [Seg.idx i])
   have hqm : startsWith (slash ++ renderPos (q0 ++ [Seg.idx i]) ++ (CStep.idx sNew :: steps).flatMap renderCStep) ['?'] = false := by
-    simp [slash, startsWith, List.append_assoc]
+    simp [slash, startsWith]
   have hpc : hasPathChar (slash ++ renderPos (q0 ++ [Seg.idx i]) ++ (CStep.idx sNew :: steps).flatMap renderCStep) = true := by
     simp [hasPathChar, slash]
   have htok := tokenize_idx_first_path q0 i hpp sNew cleanIdx_new steps hsteps
@@ -326,5 +326,41 @@ theorem setItem_create_idx (cls : Cls) (kvs : List (Str × Val)) (q : Pos) (cur 
       cases c0 with
       | n0 => rfl
       | plain => exact absurd ⟨q0, i, ys, rfl, hpv⟩ (hencl hnew)
+
+theorem createIn_named_dict {cur : Val} {s : CStep} {steps : List CStep} {v cur' : Val}
+    (h : createIn cur (s :: steps) v = some cur') (hidx : ∀ e, s ≠ .idx e) : ∃ kcls nkvs, cur = .dict kcls nkvs := by
+  cases s with
+  | idx e => exact absurd rfl (hidx e)
+  | name n =>
+    cases cur <;> simp [createIn] at h
+    exact ⟨_, _, rfl⟩
+  | elem n e =>
+    cases cur <;> simp [createIn] at h
+    exact ⟨_, _, rfl⟩
+
+/-- **every path of the honoured grammar**, whatever the first step: exactly `createIn` -/
+theorem setItem_create_any (cls : Cls) (kvs : List (Str × Val)) (q : Pos) (cur cur' : Val) (s : CStep)
+    (steps : List CStep) (v t' : Val) (fuel : Nat)
+    (hp : PlainPos q) (hget : getAt (.dict cls kvs) q = some cur) (hfirst : s.first)
+    (hsteps : ∀ x ∈ steps, x.later) (hg : GOk (s :: steps))
+    (hcreate : createIn cur (s :: steps) v = some cur') (hset : setAt (.dict cls kvs) q cur' = some t')
+    (hencl : s = .idx sNew → ¬ PlainListEncloses (.dict cls kvs) q)
+    (hf : fuel ≥ 4 * (q.length + 1)) :
+    setItem fuel (.dict cls kvs) (slash ++ renderPos q ++ (s :: steps).flatMap renderCStep) v = (t', .ok ()) := by
+  by_cases hidx : ∀ e, s ≠ .idx e
+  · obtain ⟨kcls, nkvs, rfl⟩ := createIn_named_dict hcreate hidx
+    have hs : PlainKey s.nameOf := by
+      cases s with
+      | name n => exact hfirst
+      | elem n e => exact hfirst
+      | idx e => exact absurd rfl (hidx e)
+    exact setItem_create_steps cls kvs q kcls nkvs s steps v cur' t' fuel hp hget hs hidx hsteps hg hcreate hset hf
+  · obtain ⟨e, rfl⟩ : ∃ e, s = .idx e := by
+      cases s with
+      | idx e => exact ⟨e, rfl⟩
+      | name n => exact absurd (by intro e h; cases h) hidx
+      | elem n e => exact absurd (by intro e h; cases h) hidx
+    exact setItem_create_idx cls kvs q cur cur' e steps v t' fuel hp hget hsteps hg hcreate hset
+      (fun h => hencl (by rw [h])) hf
 
 end N0.XPath
